@@ -14,6 +14,10 @@ CLAIMED = {
             "Runtime monitoring: concurrent Set/Add/Update/Delete/Get histories with uniquely tagged values are recorded at the client boundary and checked offline against the sequential model of C01 (Aborted/Unavailable are always-legal no-ops, precondition failures legal only in a justifying state). Every (victim op, window, interfering op sequence, pre-state) combination is forced deterministically by parking the victim inside the window, depth 2 adds a second parked victim; stress adds random 2-4 writer histories. Conservation (increments, generated ids, Adds per id) is checked independently of porcupine.",
             "Windows are the hook points between optimistic read, change, lock and save; more than 4 writers and windows inside user callbacks are not explored; a porcupine timeout is inconclusive.",
             "DESIGN.md §4 C02"),
+    "C03": ("offline checkers over recorded event logs (reference fold vs Get/List at quiescent points; per-subscriber delivery order vs commit order tapped under the write lock) over forced subscribe/publish windows (hooks + parking) and stress",
+            "Runtime monitoring: subscribers of every kind and option combination are opened while writers are parked inside their commit/publish windows (and vice versa), and at random instants under stress with random consumer pacing; all written values are uniquely tagged. At the quiescent point after the writers returned, each subscriber's folded view must equal Get/List (with its read mask), its delivery order must not contradict the commit order, a backpressured stream must have no gaps, and no writer may be blocked while consumers keep receiving.",
+            "Quiescence (every goroutine blocked in two identical atomic dumps) stands for 'once writers stop and the reader has drained'; consumers that stop receiving are C09/C10's subject; more than 3 writers are not explored.",
+            "DESIGN.md §4 C03"),
     "C18": ("reference-model monitor (dense-timeline / step-function brute-force oracle) over exhaustive small grids and random inputs",
             "Runtime monitoring: every period pair on a small exhaustive grid, random 64-bit-range timestamps and random segment/mode lists are run through the real functions and compared with brute-force mathematical oracles; arguments are shadow-copied to detect mutation. Held on the executions listed in the evidence, nothing more.",
             "Oracles are written from the property text; float32 magnitudes are small integers so arithmetic is exact; inputs outside the stated domain (inverted periods) are counted, not judged.",
